@@ -22,7 +22,7 @@ type IntFunc struct {
 	// variable (for "if v, ok := table[param]; ok { return v }" over a map
 	// literal with constant keys and values).
 	VarInit func(types.Object) ast.Expr
-	env    map[types.Object]constant.Value
+	env     map[types.Object]constant.Value
 }
 
 func NewIntFunc(decl *ast.FuncDecl, info *types.Info, varInit ...func(types.Object) ast.Expr) (*IntFunc, error) {
